@@ -409,7 +409,7 @@ int main(int argc, char **argv)
     vf::Harness H;
     H.property = "C20";
     H.jobs = [](const vf::Args &) {
-        std::vector<std::string> j{"rng-seed1", "rng-seed2", "rng-seed12345"};
+        std::vector<std::string> j{"rng-seed1", "rng-seed2", "rng-seed12345", "rng-seed0", "rng-seed4294967295"};  // incl. the boundary seeds (0 is mapped to 1 by the library)
         for (auto &e : vpl::planners())
             if (!(e.flags & vpl::TWO_THREADED))
                 j.push_back(e.name);
@@ -417,7 +417,7 @@ int main(int argc, char **argv)
     };
     H.run = [](const std::string &job, const vf::Args &a, vf::Report &rep) {
         if (job.substr(0, 8) == "rng-seed")
-            runRngApi((unsigned)atoi(job.c_str() + 8), a, rep);
+            runRngApi((unsigned)strtoul(job.c_str() + 8, nullptr, 10), a, rep);
         else
             runPlanner(job, a, rep);
         rep.rule = "RNG API: every history of depth <= 5 (thorough 6) over {new RNG, draw uniform01 / gaussian01 / uniformNormalVector / quaternion+uniformInt from generator i, setLocalSeed(i)} after "
@@ -425,7 +425,7 @@ int main(int argc, char **argv)
                    "RNG(localSeed). Planners (real generator, oracle off): planner x {continuous, grid-snapped (ties), SE(2)} problems x seeds x evaluation budgets {20,100,300}, each in 5 separate "
                    "processes that differ in ASLR, heap pre-offset and the byte pattern of fresh heap memory; hash(status, flags, solution paths) must agree; non-trivial = interleaved "
                    "multi-generator histories / every planner point";
-        rep.assumptions = {"the seed quantifier is a finite set {1,2,3[,12345]}: bounded enumeration",
+        rep.assumptions = {"the seed quantifier is a finite set: RNG API {0, 1, 2, 12345, 2^32-1}, planners {1,2,3[,12345]}: bounded enumeration",
                            "PRM, PRM*, SPARS, SPARStwo always run two threads and slice phases by wall clock: outside this property",
                            "heap contents are varied through ASan's malloc_fill_byte (the ASan build replaces the allocator, so MALLOC_PERTURB_ has no effect)",
                            "a planner that hangs or crashes on a point is C01/C03's finding; the comparison stops there"};
